@@ -9,6 +9,7 @@ PLAIN = ["a { w: 1.23456789012345; c: #ff0000; m: (1 + 2) * 3px; }\n",
          "$v: 1.5;\n.p { q: $v * 2.25; r: \"s\"; }\n"]
 BAD = ["a { b: }\n", "a { @error \"boom\"; }\n", "a { b: $undefined; }\n"]
 DEP_USER = '@import "dep";\n.u%d { v: $from; }\n'
+DEP2_USER = '@import "w";\n@import "dep";\n.u%d { v: $from; }\n'
 
 
 class C40(Engine):
@@ -36,10 +37,11 @@ class C40(Engine):
                 open(os.path.join(d, "in", "dep.scss"), "w").write("$from: D;\n.dep { at: D; n: 0.123456789012345; }\n")
             if v["layout"] in ("lp", "both"):
                 open(os.path.join(d, "lp", "dep.scss"), "w").write("$from: L;\n.dep { at: L; n: 0.123456789012345; }\n")
+            open(os.path.join(d, "lp", "w.scss"), "w").write(".w { only: in-load-path; }\n")
             paths = []
             for k, kind in enumerate(v["files"]):
                 p = os.path.join(d, "in", f"f{k}.scss")
-                src = PLAIN[(vi + k) % 3] if kind == "plain" else BAD[(vi + k) % 3] if kind == "bad" else DEP_USER % k
+                src = PLAIN[(vi + k) % 3] if kind == "plain" else BAD[(vi + k) % 3] if kind == "bad" else (DEP_USER if kind == "dep" else DEP2_USER) % k
                 open(p, "w").write(src)
                 paths.append(p)
                 lib_cases.append(dict(id=f"{vi}.{k}", api="fs_transform", path=p, load_paths=[os.path.join(d, "lp")],
@@ -64,11 +66,11 @@ class C40(Engine):
             e = {"ev": "Run", "case": vi, "files": v["files"], "layout": v["layout"], "lib": libs,
                  "obs": {"exit": rc, "stdout": so, "err_prefix": 1 if se.startswith("Error:") else 0}}
             events.append(e)
-            ctx.note_case([v["files"], v["layout"], v["style"], v["precision"]], nontrivial=len(v["files"]) >= 2 or "dep" in v["files"],
+            ctx.note_case([v["files"], v["layout"], v["style"], v["precision"]], nontrivial=len(v["files"]) >= 2 or "dep" in v["files"] or "dep2" in v["files"],
                           sample=dict(args=v, exit=rc, stdout=so[:120], stderr=se[:80]) if vi % 300 == 7 else None)
             # Flow A: the machine's own prediction (exit status, which files were emitted, which dep copy each saw)
             exp = v["expect"]
-            seen = ["-" if x is None else x for x in [(re.search(r"\.u%d ?\{\s*v: ?(\w)" % k, so) or [None, None])[1] if v["files"][k] == "dep" and exp["exit"] == 0 else "-"
+            seen = ["-" if x is None else x for x in [(re.search(r"\.u%d ?\{\s*v: ?(\w)" % k, so) or [None, None])[1] if v["files"][k] in ("dep", "dep2") and exp["exit"] == 0 else "-"
                                                      for k in range(len(paths))]]
             want_seen = [x if exp["exit"] == 0 else "-" for x in exp["deps"]]
             obs = {"exit": 0 if rc == 0 else 1, "deps": seen}
